@@ -41,8 +41,8 @@ Section PlayP.
   Notation run_queue := (Play.run_queue pst Pay string string (option string)).
   Notation clk := (DispatchRouter.clk Ent Pay).
   Notation steps := (DispatchRouter.steps Ent Pay clock0 spent).
-  Notation clock_unbound := (DispatchRouter.clock_unbound Ent Pay).
-  Notation addons_no_elapse := (DispatchRouter.addons_no_elapse Ent Pay).
+  Notation clock_unbound := (Dispatch.clock_unbound Ent Pay).
+  Notation addons_no_elapse := (Dispatch.addons_no_elapse Ent Pay).
   Notation timers_for := (DispatchRouter.timers_for Ent Pay).
   Notation is_elapse_act := (DispatchRouter.is_elapse_act Pay).
 
@@ -290,6 +290,24 @@ Section PlayP.
     { clear. induction s1 as [|[c'|] r IH]; cbn; [reflexivity|rewrite IH; reflexivity|exact IH]. }
     rewrite X, map_app in ND. cbn [map] in ND. apply NoDup_remove_2 in ND.
     split; apply others_not_named; intros I; apply ND; apply in_or_app; [left|right]; exact I.
+  Qed.
+
+  Lemma distinctb_nodup (l : list string) : distinctb l = true -> NoDup l.
+  Proof.
+    induction l as [|x r IH]; cbn; [constructor|]. intros H. apply andb_true_iff in H. destruct H as [H1 H2].
+    constructor; [|auto]. intros I. apply negb_true_iff in H1.
+    assert (X : existsb (String.eqb x) r = true) by (apply existsb_exists; exists x; split; [exact I|apply String.eqb_refl]).
+    congruence.
+  Qed.
+  (* the same with the boolean guard that gen/DispatchData.v evaluates *)
+  Theorem one_invocation_per_listener_b (cs : list component) (q : paction) (c : component) (i : invocation) :
+    names_distinct Ent Pay cs = true -> In c cs ->
+    direct (act_of q) (IComp c) = [i] ->
+    exactly_one (fun y => i_comp y = c_name c) i (offered (shipped_system Ent Pay cs) q).
+  Proof.
+    intros ND Ic D. apply one_invocation_per_listener; [| |exact D].
+    - rewrite shipped_comps. apply distinctb_nodup. exact ND.
+    - unfold shipped_system. apply in_or_app. left. apply in_map. exact Ic.
   Qed.
 
   (* _get_event_callbacks, as play() of Model/Play.v sees it through act_of *)
